@@ -161,6 +161,7 @@ func (in *Interp) initStubs() {
 		}
 		m.writer = true
 		in.raceAcquire(m)
+		in.raceAcquire(raceReaders{m})
 		return nil, stDone
 	}
 	s["(*sync.Mutex).TryLock"] = func(in *Interp, th *Thread, fn *ssa.Function, a []Value) (Value, stubStatus) {
@@ -173,6 +174,7 @@ func (in *Interp) initStubs() {
 		}
 		m.writer = true
 		in.raceAcquire(m)
+		in.raceAcquire(raceReaders{m})
 		return tb.T, stDone
 	}
 	s["(*sync.Mutex).Unlock"] = func(in *Interp, th *Thread, fn *ssa.Function, a []Value) (Value, stubStatus) {
@@ -204,7 +206,7 @@ func (in *Interp) initStubs() {
 			return nil, stPanicked
 		}
 		m.readers--
-		in.raceRelease(m)
+		in.raceRelease(raceReaders{m})
 		return nil, stDone
 	}
 	s["(*sync.WaitGroup).Add"] = func(in *Interp, th *Thread, fn *ssa.Function, a []Value) (Value, stubStatus) {
